@@ -117,9 +117,37 @@ func TypeEqual(a, b Type) bool {
 }
 
 func Equals(left, right Object) bool {
-	// TODO: references are usually derefs before coming here, unlike registers.
+	left = Value(left)
+	right = Value(right)
 	if !TypeEqual(left.Type(), right.Type()) {
 		return false // int and float aren't the same even though they can Cmp to the same value.
+	}
+	// ... and neither are containers holding them: [1] isn't [1.0] (Cmp alone would say so).
+	switch l := left.(type) {
+	case Array:
+		r := right.(Array)
+		if l.Len() != r.Len() {
+			return false
+		}
+		rEls := r.Elements()
+		for i, e := range l.Elements() {
+			if !Equals(e, rEls[i]) {
+				return false
+			}
+		}
+		return true
+	case Map:
+		r := right.(Map)
+		if l.Len() != r.Len() {
+			return false
+		}
+		rEls := r.mapElements()
+		for i, kv := range l.mapElements() {
+			if !Equals(kv.Key, rEls[i].Key) || !Equals(kv.Value, rEls[i].Value) {
+				return false
+			}
+		}
+		return true
 	}
 	return Cmp(left, right) == 0
 }
